@@ -334,7 +334,14 @@ def w_profiles(idx):
             e.add_attribute("system", "s")
             e.add_child(root)
             root = e
-        evs.append(record_eval(root, "warnings", {"profile": p, "hostile_words": bool(G.get("hostile"))}))
+        how = "built"
+        if i % 5 == 3:
+            root = valtrace.reid(root)                 # every node carries the same id
+            how = "all nodes share one id"
+        elif i % 5 == 4:
+            Node.store.clear()                         # the registry is not the tree
+            how = "registry emptied after building"
+        evs.append(record_eval(root, "warnings", {"profile": p, "hostile_words": bool(G.get("hostile")), "tree": how}))
         if i % 2 == 0:
             Node.store.clear()
             G["hostile"] = (i % 8 == 2)
